@@ -290,7 +290,7 @@ def run_graph(ctx):
     behs = []
     for kind in ("dbn", "jt", "mn"):
         # design level: the whole reachable abstract state space of one object + a copy (history-free BFS)
-        ctx.tlc("GraphEdit", gcfg(kind, 0, 2, 0, False, bound="DepthBound7" if ctx.thorough else ("DepthBound4" if kind == "dbn" else "DepthBound5")),
+        ctx.tlc("GraphEdit", gcfg(kind, 0, 2, 0, False, bound=("DepthBound5" if kind == "dbn" else "DepthBound6") if ctx.thorough else ("DepthBound4" if kind == "dbn" else "DepthBound5")),
                 tag=f"MC_{kind}", coverage=True, timeout=7200)
         r = ctx.tlc("GraphEdit", gcfg(kind, 2, 2, 0, True), tag=f"Gen_{kind}_d2")
         behs += r.prints
